@@ -27,6 +27,9 @@
 // answers "R <id> NOTBUILT".
 //
 // Input:   DATA <N> <D> <N*D hex doubles, sample-major>
+//          SLOTS <subset of KDF>          -> "S given kernel=.. distance=.. features=..", "S slots kernel=.. distance=..
+//                                            features=.. plain_distance=.. kernel_distance=.. begin=<0|1> end=<0|1> n=<N>", "SEND"
+//                                            (structural dump of the method implementation object's slots)
 //          TRAITS                         -> "I <callback class> <is_dummy<class>::value>" ..., "IEND"
 //          NEEDS <method> ...             -> "N <method> <needs_kernel needs_distance needs_features as 0/1>" ..., "NEND"
 //          RUN id=<n> m=<method> fam=<M|E|U|O> back=<eigen|hand|pre> src=<eigen|hand> order=<str> entry=<range|using>
@@ -48,10 +51,34 @@
 #include <vector>
 #include <omp.h>
 
+#include <algorithm>
+#include <cassert>
+#include <chrono>
+#include <deque>
+#include <fstream>
+#include <functional>
+#include <iomanip>
+#include <iterator>
+#include <limits>
+#include <list>
+#include <memory>
+#include <numeric>
+#include <queue>
+#include <random>
+#include <set>
+#include <stack>
+#include <utility>
+
+// third-party and standard headers first (defines.hpp pulls in Eigen, fmt, stichwort) ...
+#include <tapkee/defines.hpp>
+// ... then tapkee's own classes with their protected members readable: the SLOTS command dumps the slots of the
+// method implementation object (ImplementationBase members are protected).  Access only; no layout change.
+#define protected public
 #include <tapkee/callbacks/eigen_callbacks.hpp>
 #include <tapkee/callbacks/precomputed_callbacks.hpp>
 #include <tapkee/exceptions.hpp>
 #include <tapkee/tapkee.hpp>
+#undef protected
 
 using namespace tapkee;
 
@@ -196,10 +223,12 @@ struct Backing
     }
 };
 
+static int g_next_cb_id = 1;
 template <int Role, class Data> struct UCb
 {
     const Backing* b;
-    explicit UCb(const Backing* bb) : b(bb)
+    int id; // identity of the object the caller made (copies keep it)
+    explicit UCb(const Backing* bb) : b(bb), id(g_next_cb_id++)
     {
     }
     ScalarType kernel(const Data& x, const Data& y) const
@@ -284,6 +313,50 @@ TapkeeOutput walk(const St& st, const char* order, const KC& k, const DC& d, con
         break;
     }
     throw bad_order();
+}
+
+// ------------------------------------------------------------------ structural dump of the implementation slots
+template <int R, class D> std::string describe(const UCb<R, D>& c)
+{
+    return std::string("U:") + "KDF"[R] + "#" + std::to_string(c.id);
+}
+template <class D> std::string describe(const dummy_kernel_callback<D>&)
+{
+    return "dummy:K";
+}
+template <class D> std::string describe(const dummy_distance_callback<D>&)
+{
+    return "dummy:D";
+}
+template <class D> std::string describe(const dummy_features_callback<D>&)
+{
+    return "dummy:F";
+}
+template <class It, class C> std::string describe(const tapkee_internal::PlainDistance<It, C>& w)
+{
+    return "PlainDistance(" + describe(w.callback) + ")";
+}
+template <class It, class C> std::string describe(const tapkee_internal::KernelDistance<It, C>& w)
+{
+    return "KernelDistance(" + describe(w.callback) + ")";
+}
+
+// what DynamicImplementation::embedUsing does up to the method's embed(): initialize(...), the by-value cast to the
+// base class, the construction of the method implementation from it -- then print what every slot holds
+template <class KC, class DC, class FC>
+void dump_slots(const KC& k, const DC& d, const FC& f, ParametersSet ps, const std::vector<IndexType>& cidx)
+{
+    typedef std::vector<IndexType>::const_iterator It;
+    typedef tapkee_internal::ImplementationBase<It, KC, DC, FC> Base;
+    tapkee_internal::Context context(nullptr, nullptr);
+    auto impl = tapkee_internal::initialize(cidx.begin(), cidx.end(), k, d, f, ps, context);
+    const auto& self = static_cast<Base>(impl);
+    tapkee_internal::IsomapImplementation<It, KC, DC, FC> m(self);
+    printf("S given kernel=%s distance=%s features=%s\n", describe(k).c_str(), describe(d).c_str(), describe(f).c_str());
+    printf("S slots kernel=%s distance=%s features=%s plain_distance=%s kernel_distance=%s begin=%d end=%d n=%ld\n",
+           describe(m.kernel).c_str(), describe(m.distance).c_str(), describe(m.features).c_str(),
+           describe(m.plain_distance).c_str(), describe(m.kernel_distance).c_str(), (int)(m.begin == cidx.begin()),
+           (int)(m.end == cidx.end()), (long)m.n_vectors);
 }
 
 // ------------------------------------------------------------------ plumbing
@@ -379,6 +452,58 @@ int main()
                     ss >> tok;
                     X(j, i) = strtod(tok.c_str(), nullptr);
                 }
+            continue;
+        }
+        if (line.rfind("SLOTS", 0) == 0)
+        {
+            // SLOTS <subset of KDF>: dump the slots for the callbacks of that subset (dummies elsewhere)
+            std::istringstream ss(line.substr(5));
+            std::string sub;
+            ss >> sub;
+            int mask = 0;
+            for (char ch : sub)
+                mask |= ch == 'K' ? KBIT : ch == 'D' ? DBIT : ch == 'F' ? FBIT : 0;
+            if (N < 3)
+            {
+                printf("S nodata\nSEND\n");
+                continue;
+            }
+            std::vector<IndexType> ix(N);
+            for (int i = 0; i < N; i++)
+                ix[i] = i;
+            Backing backing(X, 0, false);
+            UCb<0, IndexType> kcb(&backing);
+            UCb<1, IndexType> dcb(&backing);
+            UCb<2, IndexType> fcb(&backing);
+            dummy_kernel_callback<IndexType> nk;
+            dummy_distance_callback<IndexType> nd;
+            dummy_features_callback<IndexType> nf;
+            ParametersSet ps;
+            ps.add(target_dimension = (IndexType)2);
+            try
+            {
+                if constexpr (C13_PART == 0)
+                {
+                    switch (mask)
+                    {
+                    case 1: dump_slots(kcb, nd, nf, ps, ix); break;
+                    case 2: dump_slots(nk, dcb, nf, ps, ix); break;
+                    case 3: dump_slots(kcb, dcb, nf, ps, ix); break;
+                    case 4: dump_slots(nk, nd, fcb, ps, ix); break;
+                    case 5: dump_slots(kcb, nd, fcb, ps, ix); break;
+                    case 6: dump_slots(nk, dcb, fcb, ps, ix); break;
+                    case 7: dump_slots(kcb, dcb, fcb, ps, ix); break;
+                    default: printf("S badmask\n");
+                    }
+                }
+                else
+                    printf("S notbuilt\n");
+            }
+            catch (const std::exception& ex)
+            {
+                printf("S exception %s\n", ex.what());
+            }
+            printf("SEND\n");
             continue;
         }
         if (line.rfind("TRAITS", 0) == 0)
